@@ -145,7 +145,9 @@ def same_val(real, model) -> bool:
             return len(model) == 2 and model[0] == "flt"
         return len(real) == len(model) and all(same_val(a, b) for a, b in zip(real, model))
     if isinstance(real, (bytes, bytearray)):
-        return common.hx(bytes(real)) == str(model)
+        real = common.hx(bytes(real))
+    if isinstance(model, (bytes, bytearray)):
+        model = common.hx(bytes(model))
     return str(real) == str(model)
 
 
